@@ -128,6 +128,7 @@ def observe(S):
     consumed = bytes(S.t.stream[:S.t.pos])
     obs = {'changed_consumed': consumed.count(b'changed: ') if not consumed.endswith(b'changed: ') else consumed.count(b'changed: '), 'steps': list(S.steps), 'lines': [l.decode('latin1') for l in S.server.lines], 'violations': list(S.server.violations),
            'changed_written': [n.decode() for n in S.server.changed_written], 'events': [], 'callers': [], 'flags': sorted(S.flags),
+           'free_steps': list(S.steps[getattr(S, 'free_from', 0):getattr(S, 'free_to', len(S.steps))]),
            'loop_done': S.loop_done, 'server_idle': S.server.idle, 'transport_dropped': S.t.dropped, 'multi_changed': S.server.multi_changed, 'noidle_inside_idle_reply': S.server.noidle_inside_idle_reply}
     for e in S.events:
         if e[0] == 'change':
@@ -287,7 +288,7 @@ def run_for(prop, pl):
             S = pr.value
             obs = observe(S)
             bad = JUDGES[prop](obs)
-            res.cls('schedule ' + ('with request' if any(c['results'] for c in obs['callers']) else 'without request'), nontrivial=len(obs['steps']) > 3)
+            res.cls('schedule ' + ('with request' if any(c['results'] for c in obs['callers']) else 'without request'), nontrivial=any(st.startswith(('change', 'tick', 'cancel', 'deliver/2', 'slowwrite', 'fault', 'dropclient')) for st in obs.get('free_steps', obs['steps'])) and any(c['results'] or c['cancelled'] for c in obs['callers']))
             if bad:
                 rec = {'scenario': pl, 'steps': obs['steps'], 'flags': obs['flags']}
                 ks = [k for k in (classes_c04(obs) if prop == 'C04' else []) if k in known]
